@@ -98,7 +98,11 @@ pub fn run_sub_flavour(prop: &str, ctx: &Ctx, flavour: Flavour, merged: &mut Sta
         .arg(ctx.tier.name())
         .arg(ctx.seed.to_string())
         .env("NLV_FLAVOUR", flavour.name())
-        .env("ASAN_OPTIONS", "detect_leaks=1:halt_on_error=1:abort_on_error=1:allocator_may_return_null=1")
+        .env(
+            "ASAN_OPTIONS",
+            // leaks at worker exit are a finding only for the leak property; other checks leak by design (quarantine, session results)
+            if prop == "C04" { "detect_leaks=1:halt_on_error=1:abort_on_error=1:allocator_may_return_null=1" } else { "detect_leaks=0:halt_on_error=1:abort_on_error=1:allocator_may_return_null=1" },
+        )
         .stderr(Stdio::inherit())
         .output();
     let out = match out {
@@ -355,6 +359,74 @@ pub trait Check {
     fn post(&mut self, _ctx: &Ctx, _merged: &mut Stats) {}
 }
 
+/// Run cases [from, to) of a check under Miri, in `shards` parallel interpreter processes.
+/// A report of undefined behaviour (or a leak) ends the interpreter with an error: that is the finding.
+pub fn run_miri(prop: &str, ctx: &Ctx, from: u64, to: u64, shards: u64, merged: &mut Stats) {
+    let per = ((to - from) + shards - 1) / shards.max(1);
+    let mut children = vec![];
+    for s in 0..shards {
+        let a = from + s * per;
+        let b = (a + per).min(to);
+        if a >= b {
+            break;
+        }
+        let child = Command::new("cargo")
+            .current_dir("/verif/harness")
+            .args(["+nightly", "miri", "run", "--offline", "-q", "--"])
+            .args(["inproc", prop, ctx.tier.name(), &ctx.seed.to_string(), &a.to_string(), &b.to_string()])
+            .env("NLV_FLAVOUR", "miri")
+            .env("MIRIFLAGS", "-Zmiri-disable-isolation")
+            .env("CARGO_NET_OFFLINE", "true")
+            .stdin(Stdio::null())
+            .stdout(Stdio::piped())
+            .stderr(Stdio::piped())
+            .spawn();
+        match child {
+            Ok(c) => children.push((a, b, c)),
+            Err(e) => merged.inconclusive(format!("could not start Miri: {}", e)),
+        }
+    }
+    for (a, b, c) in children {
+        match c.wait_with_output() {
+            Ok(o) => {
+                let out = String::from_utf8_lossy(&o.stdout).to_string();
+                let err = String::from_utf8_lossy(&o.stderr).to_string();
+                if let Some(l) = out.lines().find(|l| l.starts_with("inproc ")) {
+                    merged.count("miri:shards-completed");
+                    let ev: u64 = l.split("evaluations=").nth(1).and_then(|x| x.split_whitespace().next()).and_then(|x| x.parse().ok()).unwrap_or(0);
+                    merged.add("miri:evaluations", ev);
+                    merged.evaluations += ev;
+                }
+                for l in out.lines().filter(|l| l.starts_with("INPROC-VIOLATION ")) {
+                    merged.violation(&format!("miri:{}", l.split(" :: ").next().unwrap_or("").trim_start_matches("INPROC-VIOLATION ")), l.to_string(), &format!("cases {}..{} of {} interpreted by Miri", a, b, prop));
+                }
+                if !o.status.success() {
+                    let class = if err.contains("Undefined Behavior") {
+                        "undefined-behaviour"
+                    } else if err.contains("memory leaked") || err.contains("leaked") {
+                        "leak"
+                    } else if err.contains("unsupported operation") {
+                        "unsupported"
+                    } else {
+                        "error"
+                    };
+                    let tail: String = {
+                        let lines: Vec<&str> = err.lines().filter(|l| !l.trim().is_empty()).collect();
+                        let k = lines.iter().position(|l| l.contains("error")).unwrap_or(lines.len().saturating_sub(25));
+                        lines[k..(k + 30).min(lines.len())].join("\n")
+                    };
+                    if class == "unsupported" || class == "error" {
+                        merged.inconclusive(format!("Miri could not interpret cases {}..{} of {}: {}", a, b, prop, crate::obs::clip(&tail, 600)));
+                    } else {
+                        merged.violation(&format!("miri:{}", class), crate::obs::clip(&tail, 2500), &format!("cases {}..{} of {} interpreted by Miri", a, b, prop));
+                    }
+                }
+            }
+            Err(e) => merged.inconclusive(format!("Miri shard failed to run: {}", e)),
+        }
+    }
+}
+
 pub fn print_substats(stats: &Stats, prop: &str) {
     let f = format!("{}/distinct-sub-{}-{}.bin", scratch_dir(), std::process::id(), prop);
     println!("substats {}", stats.to_json(&f));
@@ -529,8 +601,17 @@ impl Worker {
                 Err(_) => break None,
             }
         };
-        self.reap(r.is_none());
-        r
+        let (how, tail) = self.reap(r.is_none());
+        match r {
+            Some(mut s) => {
+                if how != "exit:0" && tail.contains("LeakSanitizer") {
+                    s.cur_idx = 0;
+                    s.violation("lsan:leak-at-worker-exit", crate::obs::clip(&tail, 1500), "(objects still allocated when a worker of this check exited)");
+                }
+                Some(s)
+            }
+            None => None,
+        }
     }
 }
 
